@@ -2,4 +2,4 @@
 # refresh.sh: run on the UNCHANGED tree after editing units, hints or contracts — regenerates the committed tables the
 # checks read (MANIFEST.json, hint_deps.json) and validates the manifest. Never run by a check.
 cd /verif || exit 2
-python3 tools/mkmanifest.py && python3-vt tools/validate.py && python3 tools/hint_deps.py -j 14 | tail -2
+python3 tools/mkmanifest.py && python3-vt tools/validate.py && python3 tools/item_hashes.py && python3 tools/hint_deps.py -j 14 | tail -2
